@@ -12,6 +12,13 @@ from fractions import Fraction
 from ..common import Rng, cz, copt
 from ..numlib import (fl_of, o_b, o_cmp, o_err, o_fl, o_pair, o_rf, o_z, rf_of)
 
+MANIFEST = {
+    'text': 'Coq proof that the model of RealFloat/Float arithmetic (+,-,*,**,neg,pos,abs,compare,split,normalize,int) '
+            'denotes the real operations for all encodings (unbounded); tied to /repo by running every operation on all '
+            'pairs of small encodings and random wide values on both fpy2 and the model.',
+    'technique': 'machine-checked proof in Coq (Flocq reals) + model/implementation correspondence by vm_compute',
+}
+
 HEADER = ('From Coq Require Import ZArith List Bool.\n'
           'From FpyV Require Import Num.RealFloat Num.Float Num.Out Cases.C05Cases.\n'
           'Import ListNotations.\nOpen Scope Z_scope.\n')
